@@ -233,21 +233,28 @@ def run(ctx: Ctx) -> None:
         make_module(td / "nsa" / "m.py", "NSA", 100, "two")
         (td / "nsb").mkdir()
         make_module(td / "nsb" / "m.py", "NSB", 100, "two")
+        # names that merely begin like another target: a module `plug_strict` next to package `plug`, a package `sol` next to module `solo`
+        make_module(td / "plug_strict.py", "PLS", 100, "two")
+        (td / "sol").mkdir()
+        (td / "sol" / "__init__.py").write_text("")
+        make_module(td / "sol" / "m.py", "SLP", 100, "two")
         (td / "t.py").write_text("a = 1\nb = a\nc = 'x'\n")
         log = td / "calls.log"
         env = {"C16_LOG": str(log), "PYTHONPATH": f"{td}:{L.ENV['PYTHONPATH']}"}
-        names = {"plug": ["plug.sub.z", "plug.w", "plug.x", "plug.y"], "plug.x": None, "plug.sub": ["plug.sub.z"], "solo": None, "refurb.checks": "builtin", "nsa": ["nsa.m"], "nsb": ["nsb.m"]}
+        names = {"plug": ["plug.sub.z", "plug.w", "plug.x", "plug.y"], "plug.x": None, "plug.sub": ["plug.sub.z"], "solo": None, "refurb.checks": "builtin", "nsa": ["nsa.m"], "nsb": ["nsb.m"],
+                 "plug_strict": None, "sol": ["sol.m"]}
         tl = list(names)
         target_lists = [[]] + [[a] for a in tl] + [[a, b2] for a in tl for b2 in tl]
         if ctx.tier == "thorough":
             target_lists += [[a, b2, c] for a in tl for b2 in tl for c in tl]
         else:
             target_lists += [[ctx.rng.choice(tl) for _ in range(3)] for _ in range(10)]
-        expected_per_module = {"plug.x": ("PLG100", ["IntExpr"]), "plug.y": ("PLG101", ["NameExpr"]), "plug.sub.z": ("PLG102", ["IntExpr", "StrExpr"]), "plug.w": ("PLG103", ["IntExpr"]), "solo": ("SOL100", ["IntExpr"]), "nsa.m": ("NSA100", ["IntExpr"]), "nsb.m": ("NSB100", ["IntExpr"])}
+        expected_per_module = {"plug.x": ("PLG100", ["IntExpr"]), "plug.y": ("PLG101", ["NameExpr"]), "plug.sub.z": ("PLG102", ["IntExpr", "StrExpr"]), "plug.w": ("PLG103", ["IntExpr"]), "solo": ("SOL100", ["IntExpr"]), "nsa.m": ("NSA100", ["IntExpr"]), "nsb.m": ("NSB100", ["IntExpr"]),
+                               "plug_strict": ("PLS100", ["IntExpr"]), "sol.m": ("SLP100", ["IntExpr"])}
         node_counts = {"IntExpr": 1, "NameExpr": 4, "StrExpr": 1}
         model_rows = []
         from concurrent.futures import ThreadPoolExecutor
-        todo = target_lists[: ctx.budget(70, 500)]
+        todo = target_lists[: ctx.budget(130, 700)]
 
         def one(job):
             k, tlist = job
@@ -287,7 +294,7 @@ def run(ctx: Ctx) -> None:
             try:
                 from refurb.loader import get_modules
                 rows = []
-                for tlist in target_lists[: ctx.budget(60, 400)]:
+                for tlist in target_lists[: ctx.budget(130, 500)]:
                     real = [m.__name__ for m in get_modules(list(tlist)) if not m.__name__.startswith("refurb.checks")]
 
                     def tgt(t):
@@ -308,7 +315,7 @@ def run(ctx: Ctx) -> None:
                                (err or "")[-300:] + (vals[0] if vals else ""))
             finally:
                 sys.path.remove(str(td))
-                for k in [k for k in sys.modules if k.split(".")[0] in ("plug", "solo", "nsa", "nsb")]:
+                for k in [k for k in sys.modules if k.split(".")[0] in ("plug", "solo", "nsa", "nsb", "plug_strict", "sol")]:
                     del sys.modules[k]
         selections(ctx, td, env, log)
         signatures(ctx, td, env, log)
@@ -327,7 +334,8 @@ def run(ctx: Ctx) -> None:
                        {"argv": argv, "pythonpath": env2["PYTHONPATH"], "stdout": out[-400:], "stderr": err[-400:]})
     finally:
         shutil.rmtree(td, ignore_errors=True)
-    ctx.resolve_broken({"modules_once": "load:multiplicity", "translate the check-function contract (loader.py, visitor.py, mapping.py)": "signature:",
+    ctx.resolve_broken({"modules_once": "load:multiplicity",
+                        "correspondence: Lib/Loader.v get_modules = refurb.loader.get_modules (plugin modules, order included) on every target list": ("load:",), "translate the check-function contract (loader.py, visitor.py, mapping.py)": "signature:",
                         "accepted_checks_are_callable_as_registered": "signature:", "well_formed_checks_are_accepted": "signature:"}, b.first_error)
 
 
